@@ -42,6 +42,14 @@ def model(ex, path, cal, recv, args, node, st):
     allargs = ([recv] if recv is not None else []) + list(args)
     a0 = allargs[0] if allargs else None
 
+    # ---- bool → integer conversions
+    if name in ("from", "into") and len(allargs) == 1 and a0 is not None and a0[0] == "lit" and isinstance(a0[1], bool) and (
+            (cal.get("self_ty") if name == "from" else (cal.get("gargs") or [None, None])[-1]) in ("u8", "u16", "u32", "u64", "usize", "i8", "i16", "i32", "i64", "isize", "u128", "i128")):
+        return _val(st, lit(int(a0[1])))
+    # ---- map entry API, desugared to the lookup and the insertion it stands for
+    r_entry = _entry_model(ex, name, d, recv, args, node, st)
+    if r_entry is not None:
+        return r_entry
     # ---- panics
     if any(d.startswith(p) for p in PANIC_PREFIXES) or d in ("std::process::exit",):
         return [(st, ("panic", d))]
@@ -210,6 +218,73 @@ def model(ex, path, cal, recv, args, node, st):
     return None
 
 
+def _map_path(d):
+    for m in ("std::collections::HashMap", "std::collections::BTreeMap", "indexmap::IndexMap", "indexmap::map::IndexMap", "std::collections::hash_map::HashMap"):
+        if d.startswith(m):
+            return m
+    return None
+
+
+def _entry_model(ex, name, d, recv, args, node, st):
+    """`map.entry(key)` is a lookup whose outcome is matched as Occupied / Vacant; `vacant.insert(v)` and
+    `entry.or_insert(v)` are the insertion. The effects recorded are the `get` and `insert` calls the API stands for, so
+    rules written against get / insert see the same operations. The entry value is ("entry", map, key, lookup result)."""
+    if recv is None:
+        return None
+    if name == "entry" and len(args) == 1 and _map_path(d):
+        m = _map_path(d)
+        r = ("fall", next(ex.counter), "option", "get")
+        ex.effect(st, "call", (lit(m + "::<K, V, S>::get"), recv, args[0]), result=r, node=node, via="entry")
+        return _val(st, ("entry", recv, args[0], r))
+    is_occ = isinstance(recv, tuple) and recv[:1] == ("occupied",)
+    is_vac = isinstance(recv, tuple) and recv[:1] == ("vacant",)
+    is_ent = isinstance(recv, tuple) and recv[:1] == ("entry",)
+    if not (is_occ or is_vac or is_ent):
+        return None
+    mp, key, r = recv[1], recv[2], recv[3]
+    ins_name = "std::collections::HashMap::<K, V, S>::insert"
+    if is_occ:
+        if name in ("get", "get_mut", "into_mut"):
+            return _val(st, ("payload", r))
+        if name == "key":
+            return _val(st, key)
+        if name == "insert" and len(args) == 1:
+            ex.effect(st, "call", (lit(ins_name), mp, key, args[0]), result=("some", ("payload", r)), node=node, via="entry", overwrites=True)
+            return _val(st, ("payload", r))
+        if name in ("remove", "remove_entry", "swap_remove", "shift_remove"):
+            ex.effect(st, "call", (lit("std::collections::HashMap::<K, V, S>::remove"), mp, key), result=("some", ("payload", r)), node=node, via="entry")
+            return _val(st, ("payload", r))
+        return None
+    if is_vac:
+        if name == "insert" and len(args) == 1:
+            ex.effect(st, "call", (lit(ins_name), mp, key, args[0]), result=("none",), node=node, via="entry")
+            return _val(st, args[0])
+        if name in ("key", "into_key"):
+            return _val(st, key)
+        return None
+    # Entry combinators
+    if name in ("or_insert", "or_insert_with", "or_default", "or_insert_with_key"):
+        s_some = st
+        s_none = st.fork()
+        ex.effect(s_some, "assume", (app("is_some", r), TRUE), node=node)
+        ex.effect(s_none, "assume", (app("is_some", r), FALSE), node=node)
+        out = [(s_some, ("val", ("payload", r)))]
+        if name == "or_insert":
+            vals = [(s_none, ("val", args[0]))]
+        elif name == "or_default":
+            vals = [(s_none, ("val", app("default")))]
+        else:
+            vals = _apply(ex, args[0], (key,) if name == "or_insert_with_key" else (), s_none)
+        for s2, o in vals:
+            if o[0] == "val":
+                ex.effect(s2, "call", (lit(ins_name), mp, key, o[1]), result=("none",), node=node, via="entry")
+            out.append((s2, o))
+        return out
+    if name == "key":
+        return _val(st, key)
+    return None
+
+
 def _mentions(t, sub):
     if t == sub:
         return True
@@ -219,6 +294,10 @@ def _mentions(t, sub):
 
 
 def _concrete_elems(base):
+    if base[0] == "some":
+        return (base[1],)           # an Option iterates over its payload, if any
+    if base == ("none",):
+        return ()
     if base[0] == "app" and base[1] == "array":
         return base[2]
     if base[0] == "app" and base[1] == "vec_of" and base[2][0][0] == "app" and base[2][0][1] == "array":
